@@ -30,6 +30,8 @@ var composeShapes = []struct {
 	w     int
 	kinds []string
 }{
+	// a single content, as the builder would emit it, but with member identities in a non-canonical encoding
+	{3, []string{"rot"}}, {3, []string{"rm"}},
 	{4, []string{"rot", "rm"}}, {4, []string{"rm", "rot"}}, {3, []string{"rot", "rot"}}, {3, []string{"rm", "rm"}},
 	{2, []string{"rot", "rm", "add"}}, {2, []string{"rm", "rot", "add"}}, {1, []string{"rot", "add", "rm"}},
 	{2, []string{"add", "rot"}}, {2, []string{"rot", "add"}}, {1, []string{"add", "rm"}}, {1, []string{"rm", "add"}},
@@ -142,6 +144,38 @@ func (h *hist) compose(kinds []string) *pendingOp {
 		res.invKeys = append(res.invKeys, op.invKeys...)
 		scratch = append(scratch, h.wrap(op.rec))
 	}
+	// identities inside rotations may be written in a byte-different but valid protobuf encoding of the same
+	// public key (encoders that do not elide defaults, non-minimal varints, …): validator, decoder and state
+	// must agree on whom a ciphertext is for
+	if len(kinds) == 1 || h.r.Chance(50) {
+		n := 0
+		for _, c := range contents {
+			rk := c.GetReadKeyChange()
+			if rm := c.GetAccountRemove(); rm != nil {
+				rk = rm.ReadKeyChange
+			}
+			if rk == nil {
+				continue
+			}
+			for _, e := range rk.AccountKeys {
+				if h.r.Chance(60) {
+					e.Identity = h.nonCanonical(e.Identity)
+					n++
+				}
+			}
+			for _, e := range rk.InviteKeys {
+				if h.r.Chance(40) {
+					e.Identity = h.nonCanonical(e.Identity)
+					n++
+				}
+			}
+		}
+		if n > 0 {
+			res.shape += "~nc"
+		} else if len(kinds) == 1 {
+			return nil // would be exactly what the builder emits
+		}
+	}
 	rec := &consensusproto.Record{
 		PrevId:    h.raw[len(h.raw)-1].Id,
 		Identity:  h.accProto[author],
@@ -152,6 +186,36 @@ func (h *hist) compose(kinds []string) *pendingOp {
 	res.rec = &consensusproto.RawRecord{Payload: payload, Signature: must(h.accs[author].SignKey.Sign(payload))}
 	res.name = fmt.Sprintf("hand-signed[%s](by=%d)", res.shape, author)
 	return res
+}
+
+// nonCanonical renders cryptoproto.Key{Type: Ed25519Public (= 0), Data: raw} in a byte-different but
+// equivalent wire encoding (same variants as harness/areas/acl):
+//	1: the default-valued Type written explicitly (08 00) before Data   2: Data first, then explicit Type
+//	3: the length of Data as a non-minimal varint                       4: explicit Type as non-minimal varint
+//	5: Data written twice (last one wins), first copy garbage
+func (h *hist) nonCanonical(id []byte) []byte {
+	pk, err := crypto.UnmarshalEd25519PublicKeyProto(id)
+	if err != nil {
+		return id
+	}
+	raw, err := pk.Raw()
+	if err != nil || len(raw) != 32 {
+		return id
+	}
+	data := func(lenBytes ...byte) []byte { return append(append([]byte{0x12}, lenBytes...), raw...) }
+	switch 1 + h.r.Intn(5) {
+	case 1:
+		return append([]byte{0x08, 0x00}, data(0x20)...)
+	case 2:
+		return append(data(0x20), 0x08, 0x00)
+	case 3:
+		return data(0xa0, 0x00)
+	case 4:
+		return append([]byte{0x08, 0x80, 0x00}, data(0x20)...)
+	default:
+		junk := append([]byte{0x12, 0x20}, make([]byte, 32)...)
+		return append(junk, data(0x20)...)
+	}
 }
 
 func (h *hist) pickShape() []string {
@@ -245,4 +309,3 @@ func (h *hist) admissionStep() bool {
 	return r.Issues() == 0
 }
 
-var _ = crypto.NewAES
